@@ -170,6 +170,11 @@ func runNative(repo, hdir, workDir string, names []string, cases []nativeCase, r
 		if got >= len(remaining) {
 			break
 		}
+		if got > 0 && results[len(results)-1].Outcome == "timeout" && restarts < 16 {
+			// the twin ends its process after a case that did not return (its goroutine would keep running)
+			remaining = remaining[got:]
+			continue
+		}
 		if !strings.Contains(string(outb), "fatal error:") || restarts >= 16 {
 			return nil, log, fmt.Errorf("native run stopped after %d of %d cases (%v): %s", got, len(remaining), err, tail(string(outb), 2000))
 		}
@@ -440,6 +445,8 @@ func cmdCheck(args []string) {
 			switch v.Kind {
 			case "panic":
 				ok = r.Outcome == "panic" || r.Outcome == "timeout" || r.Outcome == "fatal"
+			case "hang":
+				ok = r.Outcome == "timeout" // the real code does not return either
 			case "assert":
 				for _, f := range r.Failed {
 					if f == v.Label {
@@ -699,7 +706,7 @@ func doReplay(repo, root, hdir, path string) int {
 	r := res["r"]
 	fmt.Printf("replay %s: outcome=%s failed=%v\n%s\n", rf.Harness, r.Outcome, r.Failed, r.Detail)
 	reproduced := false
-	if rf.Kind == "panic" && (r.Outcome == "panic" || r.Outcome == "timeout" || r.Outcome == "fatal") {
+	if (rf.Kind == "panic" && (r.Outcome == "panic" || r.Outcome == "timeout" || r.Outcome == "fatal")) || (rf.Kind == "hang" && r.Outcome == "timeout") {
 		reproduced = true
 	}
 	for _, f := range r.Failed {
